@@ -61,6 +61,20 @@ def generate(seed, tier="quick"):
     N = lib_n
     ops = []
     oid = 0
+    if cfg["datasets"][0]["n_sources"] > 1 and rnd.random() < 0.5:
+        # history: evaluate, then update one survey inside the SAME container object, then everything else
+        for _h in range(rnd.randint(1, 2)):
+            h = _history_op(rnd, cfg, oid)
+            h["data"] = 0
+            ops.append(h)
+            oid += 1
+        import copy as _copy
+
+        ns = _copy.deepcopy(cfg["datasets"][0])
+        ns["gen_seed"] = rnd.getrandbits(48)
+        ns["profile"] = rnd.choice(["weak", "informative"])
+        ops.append({"id": oid, "op": "helper_mutate_data", "data": 0, "source_idx": rnd.randrange(ns["n_sources"]), "new_spec": ns, "role": "mutate"})
+        oid += 1
     for _ in range(rnd.randint(5, 9)):
         for _h in range(rnd.choice([0, 0, 1, 1, 2])):
             ops.append(_history_op(rnd, cfg, oid))
@@ -131,7 +145,7 @@ def evaluate(dep, program):
     w = dep.world
     cfg = program["config"]
     L = oracles.LStar(w)
-    internal = common.internal_units_lib(cfg["libraries"][0], cfg["prior"])
+    internal = common.internal_units_lib(cfg["libraries"][0], {"rv_unit": cfg["datasets"][0]["rv_unit"]})
     if not internal:
         probe("library_non_internal_units")
     if cfg["libraries"][0].get("dtype") == "f4":
@@ -230,6 +244,12 @@ def evaluate(dep, program):
     # helper-level
     for rec in dep.history:
         op = rec["op"]
+        if op.get("role") == "mutate":
+            if rec["raised"] is not None:
+                probe("harness:mutate_data_failed")
+            else:
+                probe("data_container_mutated_in_place")
+            continue
         if op.get("role") != "helper":
             continue
         if rec["raised"] is not None:
